@@ -919,6 +919,102 @@ func runC03(c *Ctx) {
 		c.Check(bad == "", "C03.R11", shortFn(prt)+": delimiter scan starts at len(text)-2", prt.Pos(), "initial value of the backward scan index", bad)
 	}
 
+	// ---------- R13: the exception marker is cut off as a prefix, once ----------
+	// What parseRuleText hands on as the pattern (and what it searches the options in) is the rule text
+	// itself or the rule text behind exactly the two characters of "@@": a pattern of an exception rule
+	// may itself begin with '@'.
+	c.Rule("C03.R13", "LIN", "the text behind the exception marker starts exactly two characters in", 1)
+	if prt := c.P.Func("rules", "parseRuleText"); prt != nil {
+		g := NewGate(c.P)
+		g.Inline = inlineOnly()
+		s := g.Eval(prt)
+		u := g.U
+		txt := g.ParamExprs(prt)[0]
+		marker, _ := a.constStr("rules", "maskWhiteList")
+		bad := ""
+		n := 0
+		var baseOK func(e *E, depth int) string
+		baseOK = func(e *E, depth int) string {
+			switch {
+			case depth > 8:
+				return "UNDECIDED: derivation too deep"
+			case e == txt:
+				return ""
+			case e.Op == "slice" && len(e.Args) >= 3:
+				if e.Args[0] == txt {
+					lo := e.Args[1]
+					if lo == nil {
+						return ""
+					}
+					if k, ok := lo.IntVal(); ok && (k == 0 || k == int64(len(marker))) {
+						return ""
+					}
+					return "the text is cut at " + clip(u.Show(lo), 40)
+				}
+				// a cut of a cut: the options scan cuts the remaining text at the delimiter
+				return baseOK(e.Args[0], depth+1)
+			case e.Op == "call" && (e.Aux == "strings.TrimPrefix" || e.Aux == "strings.CutPrefix") && len(e.Args) == 2 && e.Args[0] == txt:
+				if k, ok := e.Args[1].StrVal(); ok && k == marker {
+					return ""
+				}
+				return "a prefix other than the exception marker is removed"
+			case e.Op == "extract" && len(e.Args) == 1:
+				return baseOK(e.Args[0], depth+1)
+			case e.Op == "call" && (strings.HasPrefix(e.Aux, "strings.Trim") || e.Aux == "strings.Replace" || e.Aux == "strings.ReplaceAll") && len(e.Args) >= 1 && (e.Args[0] == txt || baseOK(e.Args[0], depth+1) == ""):
+				return "the text behind the marker is " + clip(u.Show(e), 80) + ": every leading character of the set is removed, not the two-character marker (a pattern that itself begins with '@' loses it: @@@banner^ allows everything with 'banner')"
+			case e.Op == "loopphi" || e.Op == "loopval":
+				return "" // the remaining text carried through the delimiter scan: its entries are judged where they are stored
+			}
+			if sv, ok := e.StrVal(); ok && sv == "" {
+				return ""
+			}
+			return "UNDECIDED: the pattern is taken from " + clip(u.Show(e), 80)
+		}
+		for _, r := range s.Rets {
+			if r.Cond == False || len(r.Vals) < 1 {
+				continue
+			}
+			for leaf, lc := range u.Leaves(r.Vals[0]) {
+				if u.bdd.And(lc, r.Cond) == False {
+					continue
+				}
+				n++
+				if w := baseOK(leaf, 0); w != "" && bad == "" {
+					bad = w
+				}
+			}
+		}
+		// the value carried into the delimiter scan
+		for _, li := range loopInsts(g, s) {
+			for _, in := range li.L.Header.Instrs {
+				ph, ok := in.(*ssa.Phi)
+				if !ok {
+					break
+				}
+				if bt, isB := ph.Type().Underlying().(*types.Basic); !isB || bt.Kind() != types.String {
+					continue
+				}
+				for i, pr := range li.L.Header.Preds {
+					if li.L.Blocks[pr] {
+						continue
+					}
+					if e := li.Act.Env[ph.Edges[i]]; e != nil {
+						for leaf := range u.Leaves(e) {
+							n++
+							if w := baseOK(leaf, 0); w != "" && bad == "" {
+								bad = w
+							}
+						}
+					}
+				}
+			}
+		}
+		if n == 0 {
+			bad = "UNDECIDED: no pattern value found"
+		}
+		c.Check(bad == "", "C03.R13", shortFn(prt)+": pattern = text, or text[len(\"@@\"):] under the marker test", prt.Pos(), "every value handed on as the pattern is a cut of the rule text that starts at 0 or behind the marker", bad)
+	}
+
 	// ---------- R9: the expansion constants mean what the syntax documents ----------
 	// The constants are read from the source and interpreted inside the checker (Go's regexp on the
 	// constant text, against a table of the documented cases); nothing of urlfilter runs.
